@@ -18,15 +18,15 @@ EV_TFD_CREATE, EV_TFD_SETTIME, EV_EPOLL_CTL, EV_RC, EV_VIOL, EV_FIRE, EV_STEP, E
 VNAMES = {1: "fired-while-unregistered", 2: "fired-while-disabled", 3: "oneshot-fired-twice", 4: "dispatch-fired-without-reenable",
           5: "fired-without-condition", 6: "wrong-event-kind", 7: "eof-flag-missing", 8: "eof-flag-spurious", 9: "missing-callback",
           10: "callback-on-wrong-thread", 11: "well-formed-operation-refused", 12: "error-flag-spurious", 13: "proc-flags",
-          14: "descriptor-leak-after-deleting-everything", 15: "error-flag-missing-on-reset", 16: "error-code-on-reset"}
+          14: "descriptor-leak-after-deleting-everything", 15: "error-flag-missing-on-reset", 16: "error-code-on-reset", 17: "refused-registration-left-installed"}
 KIND = ["read", "write", "timer", "proc"]
 TP_F_ONESHOT, TP_F_DISPATCH = 1, 2
 T_SEC, T_MSEC, T_USEC, T_NSEC, T_ABS = 0, 1, 2, 3, 4
 UNIT_NS = {T_SEC: 10 ** 9, T_MSEC: 10 ** 6, T_USEC: 10 ** 3, T_NSEC: 1}
 UNIT_NAME = {0: "s", 1: "ms", 2: "us", 3: "ns"}
 CLOCK_REALTIME, CLOCK_MONOTONIC, TFD_TIMER_ABSTIME = 0, 1, 1
-H_ADD, H_ENABLE, H_DISABLE, H_DELETE, H_READY, H_CLOSE_PEER, H_SPIN, H_CHECK, H_ENABLE_NEWFLAGS, H_POISON = range(1, 11)
-HN = {1: "add", 2: "enable", 3: "disable", 4: "delete", 5: "ready", 6: "close-peer", 7: "spin", 8: "check", 9: "enable-newflags", 10: "poison"}
+H_ADD, H_ENABLE, H_DISABLE, H_DELETE, H_READY, H_CLOSE_PEER, H_SPIN, H_CHECK, H_ENABLE_NEWFLAGS, H_POISON, H_ADD_REFUSED_TIMER = range(1, 12)
+HN = {1: "add", 2: "enable", 3: "disable", 4: "delete", 5: "ready", 6: "close-peer", 7: "spin", 8: "check", 9: "enable-newflags", 10: "poison", 11: "add-refused-timer"}
 
 
 def build_all(report, tier):
@@ -217,6 +217,8 @@ def gen_history(rng, tier):
             kinds[i] = k
             fl = rng.choice([0, 0, TP_F_ONESHOT, TP_F_DISPATCH])
             steps.append((H_ADD, i, k, fl, rng.below(1000)))
+        elif r < 21 and kinds.get(i) == 2:
+            steps.append((H_ADD_REFUSED_TIMER, i, 2, rng.choice([0, TP_F_ONESHOT, TP_F_DISPATCH]), rng.below(1000)))
         elif r < 30:
             steps.append((H_ENABLE, i, 0, 0, 0))
         elif r < 35:
@@ -247,8 +249,8 @@ def gen_history(rng, tier):
     return steps
 
 
-def encode_history(seed, steps):
-    w = W().u64(seed).u8(3).u8(0).u16(len(steps))
+def encode_history(seed, steps, on_pvt=0):
+    w = W().u64(seed).u8(3).u8(2 if on_pvt else 0).u16(len(steps))
     for op, i, k, fl, arg in steps:
         w.u8(op).u8(i).u8(k).u8(fl).u32(arg)
     return w.done()
@@ -356,7 +358,8 @@ def make_jobs(tier, exes):
         jobs.append(("valid", w.done(), chunk, exes))
     for i in range(300 if tier == "quick" else 12000):
         steps = gen_history(rng, tier)
-        jobs.append(("hist", encode_history(rng.u64(), steps), steps, exes))
+        # every fourth history registers its events on the pool virtual thread (single worker)
+        jobs.append(("hist", encode_history(rng.u64(), steps, on_pvt=(i % 4 == 3)), steps, exes))
     return jobs
 
 
@@ -365,7 +368,7 @@ def run(tier):
     report.rule = ("(1) timer argument cases = value x unit x relative/absolute x periodic/one-shot/dispatch, judged on the itimerspec/clock/flags "
                    "seen by interposed timerfd_create/timerfd_settime; (2) validation cases = event kind x flag bits x filter flags x ident x "
                    "NULL callback/thread, judged on return code + interposed kernel-call trace; (3) histories of add/enable/disable/delete/"
-                   "make-ready/close-peer/check on the owning thread over <=4 identifiers (pipe, socketpair, timer, child process) with an "
+                   "make-ready/close-peer/refused-timer/check on the owning thread (every fourth history: on the pool virtual thread of a one-worker pool) over <=4 identifiers (pipe, socketpair, timer, child process) with an "
                    "online shadow-state monitor; distinct class = (oracle, unit/mode/sub-second/digits) | (event, refusal reason, flags) | "
                    "(operation kind/flags) | (fired kind, EOF/ERROR flags, preceding operation)")
     exes = build_all(report, tier)
